@@ -10,7 +10,12 @@ use crate::{
     logging,
 };
 use std::cmp::min;
+#[cfg(not(sentinel_verif))]
 use std::sync::{atomic::Ordering, Arc, Mutex, Weak};
+#[cfg(sentinel_verif)]
+use std::sync::{atomic::Ordering, Arc, Weak};
+#[cfg(sentinel_verif)]
+use crate::verif_sync::{Mutex};
 
 /// Traffic Shaping `Checker` performs checking according to current metrics and the traffic
 /// shaping strategy, then yield the token result.
